@@ -227,8 +227,17 @@ def run_case(case, ctx):
         scal = [rs.uniform(0.5, 2, R) * rs.choice([-1, 1], R) for _ in range(order)]
         t = cpm.CPTensor(((w[p] / np.prod(scal, axis=0)).astype(dt), [(f[:, p] * s).astype(dt) for f, s in zip(factors, scal)]))
         refc = cpm.CPTensor((w.copy(), [f.copy() for f in factors]))
-        out, permutation = cpm.cp_permute_factors(refc, t)
-        desc = {"gen": g, "shape": shp, "rank": R, "dtype": dt}
+        as_list = bool(rs.rand() < 0.6)
+        before = ref.cp_dense(t.weights, t.factors)[0]
+        out, permutation = cpm.cp_permute_factors(refc, [t] if as_list else t)
+        if isinstance(out, list):
+            out = out[0]
+        desc = {"gen": g, "shape": shp, "rank": R, "dtype": dt, "list_input": as_list}
+        after = ref.cp_dense(out.weights, out.factors)[0]
+        if np.max(np.abs(after - before)) > 1e4 * eps * (np.max(np.abs(before)) + 1e-300) * R:
+            ctx.violation("C20:cp_permute_factors:tensor-preserved:%s" % ("list" if as_list else "single"),
+                          "permuting a CP tensor to match a reference changed the tensor it represents (max diff %.3g)" % float(np.max(np.abs(after - before))), desc)
+            return
         for k in range(order):
             c = np.diag(cos_matrix(out.factors[k], factors[k], True))
             if np.any(c < 1 - 1e-4):
